@@ -223,6 +223,143 @@ def check_opchains_mpo(inp):
              2: np.array([[0, rng.standard_normal()], [0, 0]])}
     return _check_opchains(inp, opmap, [0, g])
 
+
+# ------------------------------------------------------------------------------------------- C06
+
+def _num(M):
+    out = np.empty(M.shape, dtype=complex)
+    for idx in np.ndindex(*M.shape):
+        x = M[idx]
+        out[idx] = complex(x.cval()) if hasattr(x, 'cval') else complex(x)
+    return out
+
+
+@check('lattice_model')
+def check_lattice_model(inp):
+    import pytenet as ptn
+    from refs import models as Mo
+    model, L, d, p = inp['model'], inp['L'], inp['d'], inp['params']
+    try:
+        if model == 'ising':
+            mpo = ptn.ising_mpo(L, *p); ref = Mo.ising(L, *p)
+        elif model == 'heisenberg_xxz':
+            mpo = ptn.heisenberg_xxz_mpo(L, *p); ref = Mo.heisenberg_xxz(L, *p)
+        elif model == 'heisenberg_xxz_spin1':
+            mpo = ptn.heisenberg_xxz_spin1_mpo(L, *p); ref = Mo.heisenberg_xxz_spin1(L, *p)
+        elif model == 'bose_hubbard':
+            mpo = ptn.bose_hubbard_mpo(d, L, *p); ref = Mo.bose_hubbard(d, L, *p)
+        elif model == 'fermi_hubbard':
+            mpo = ptn.fermi_hubbard_mpo(L, *p); ref = Mo.fermi_hubbard(L, *p)
+        elif model == 'linear_fermionic':
+            mpo = ptn.linear_fermionic_mpo(p, inp['ftype']); ref = Mo.linear_fermionic(p, inp['ftype'])
+        else:
+            return [f'unknown model {model}']
+        M = mpo.as_matrix()
+    except Exception as e:
+        if model != 'linear_fermionic' and not np.any(_num(ref)):
+            return []      # the identically-zero operator is excluded by the property
+        return [f'{model} raised {type(e).__name__}: {e}']
+    ref = _num(ref)
+    fails = []
+    sc = float(np.max(np.abs(ref))) if ref.size else 1.0
+    if not close(M, ref, sc):
+        fails.append(f'{model}(L={L}, params={p}): dense matrix differs from the textbook definition')
+    if model != 'linear_fermionic' and not close(M, M.conj().T, sc):
+        fails.append('not Hermitian')
+    phys = Mo.phys_qnums(model, d)
+    qd = [int(x) for x in mpo.qd]
+    for s_, t_ in itertools.product(range(len(qd)), repeat=2):
+        if (qd[s_] == qd[t_]) != (phys[s_] == phys[t_]):
+            fails.append(f'qd={qd} does not label the conserved quantity')
+            break
+    for i, A in enumerate(mpo.A):
+        fails += qsparse_fail(A, [mpo.qd, -mpo.qd, mpo.qD[i], -mpo.qD[i + 1]], f'A[{i}]')
+    return fails
+
+
+# ------------------------------------------------------------------------------------------- C16
+
+def _graph_from_json(j):
+    from pytenet.opgraph import OpGraph, OpGraphNode, OpGraphEdge
+    nodes = [OpGraphNode(n['nid'], n['eids_in'], n['eids_out'], n['qnum']) for n in j['nodes']]
+    edges = [OpGraphEdge(e['eid'], e['nids'], [(o, c) for o, c in e['opics']]) for e in j['edges']]
+    return OpGraph(nodes, edges, j['nid_terminal'])
+
+
+def _graph_dump(g):
+    return (sorted((k, n.nid, tuple(n.eids[0]), tuple(n.eids[1]), n.qnum) for k, n in g.nodes.items()),
+            sorted((k, e.eid, tuple(e.nids), tuple(e.opics)) for k, e in g.edges.items()), tuple(g.nid_terminal))
+
+
+@check('graph_rewrite')
+def check_graph_rewrite(inp):
+    from refs import words as W
+    op = inp['op']
+    g = _graph_from_json(inp['graph'])
+    if not g.is_consistent():
+        return []       # not a valid input
+    w0 = W.graph_words(g)
+    n0, e0 = len(g.nodes), len(g.edges)
+    widths0 = W.layer_widths(g)
+    ref = w0
+    fails = []
+    try:
+        if op == 'simplify':
+            g.simplify()
+        elif op == 'seq2':
+            g.simplify(); g.flip(); g.simplify(); g.flip()
+        elif op == 'flip':
+            g.flip(); ref = {tuple(reversed(w)): c for w, c in w0.items()}
+        elif op == 'merge':
+            g.merge_edges(inp['eid1'], inp['eid2'], inp['direction'])
+        elif op == 'rename_node':
+            g.rename_node_id(inp['cur'], inp['new'])
+            if inp['new'] not in g.nodes:
+                fails.append('renamed node missing')
+        elif op == 'rename_edge':
+            g.rename_edge_id(inp['cur'], inp['new'])
+            if inp['new'] not in g.edges:
+                fails.append('renamed edge missing')
+        elif op == 'add':
+            other = _graph_from_json(inp['other'])
+            if not other.is_consistent():
+                return []
+            wh = W.graph_words(other)
+            before = _graph_dump(other)
+            g.add(other)
+            ref = dict(w0)
+            for w, c in wh.items():
+                W.wadd(ref, w, c)
+            if _graph_dump(other) != before:
+                fails.append('add() modified the other graph')
+            # later mutation of the result must not reach the other graph
+            for n in g.nodes.values():
+                n.eids[0].append(-12345); n.eids[1].append(-12345)
+            if _graph_dump(other) != before:
+                fails.append('result of add() shares edge-id lists with the other graph')
+            for n in g.nodes.values():
+                n.eids[0].remove(-12345); n.eids[1].remove(-12345)
+    except AssertionError as e:
+        if op == 'merge':
+            return []   # precondition of merge_edges not met for the concrete values
+        return [f'{op} raised AssertionError: {e}']
+    except Exception as e:
+        return [f'{op} raised {type(e).__name__}: {e}']
+    if not g.is_consistent():
+        fails.append(f'graph inconsistent after {op}')
+    try:
+        w1 = W.graph_words(g)
+    except Exception as e:
+        return fails + [f'graph walk failed after {op}: {e}']
+    fails += _words_close(w1, ref)
+    if op in ('simplify', 'seq2', 'merge'):
+        if len(g.nodes) > n0 or len(g.edges) > e0:
+            fails.append('number of nodes/edges increased')
+        wa = W.layer_widths(g)
+        if len(wa) != len(widths0) or any(a > b for a, b in zip(wa, widths0)):
+            fails.append(f'layer width increased {widths0} -> {wa}')
+    return fails
+
 # -------------------------------------------------------------------------------------------
 
 def main():
